@@ -12,16 +12,16 @@ the task list is mapped by a function that keeps ids, never touches an answered 
 theorem step_nonUse {p : Pool K} (h : Inv p) (e : Ev K) (hne : e.isUseKs = false) :
     ∃ g : Task K → Task K, (step p e).tasks = p.tasks.map g ∧ (step p e).overlap = p.overlap ∧
       (step p e).currentKs = p.currentKs ∧
-      ∀ t ∈ p.tasks, (g t).id = t.id ∧ (t.resp ≠ none → g t = t) ∧ ((g t).resp = none → t.resp = none) := by
+      ∀ t ∈ p.tasks, (g t).id = t.id ∧ (t.resp ≠ none → g t = t) ∧ ((g t).resp = none → t.resp = none) ∧ (g t).ks = t.ks := by
   have hsame : ∀ q : Pool K, q.tasks = p.tasks → q.overlap = p.overlap → q.currentKs = p.currentKs →
       ∃ g : Task K → Task K, q.tasks = p.tasks.map g ∧ q.overlap = p.overlap ∧ q.currentKs = p.currentKs ∧
-        ∀ t ∈ p.tasks, (g t).id = t.id ∧ (t.resp ≠ none → g t = t) ∧ ((g t).resp = none → t.resp = none) :=
-    fun q hq ho hk => ⟨id, by simp [hq], ho, hk, fun t _ => ⟨rfl, fun _ => rfl, fun x => x⟩⟩
+        ∀ t ∈ p.tasks, (g t).id = t.id ∧ (t.resp ≠ none → g t = t) ∧ ((g t).resp = none → t.resp = none) ∧ (g t).ks = t.ks :=
+    fun q hq ho hk => ⟨id, by simp [hq], ho, hk, fun t _ => ⟨rfl, fun _ => rfl, fun x => x, rfl⟩⟩
   have hmod : ∀ (q : Pool K) (t0 : Task K) (f : Task K → Task K), t0 ∈ p.tasks → t0.resp = none →
       q.tasks = modifyTask p.tasks t0.id f → q.overlap = p.overlap → q.currentKs = p.currentKs →
-      (∀ x, (f x).id = x.id) →
+      (∀ x, (f x).id = x.id ∧ (f x).ks = x.ks) →
       ∃ g : Task K → Task K, q.tasks = p.tasks.map g ∧ q.overlap = p.overlap ∧ q.currentKs = p.currentKs ∧
-        ∀ t ∈ p.tasks, (g t).id = t.id ∧ (t.resp ≠ none → g t = t) ∧ ((g t).resp = none → t.resp = none) := by
+        ∀ t ∈ p.tasks, (g t).id = t.id ∧ (t.resp ≠ none → g t = t) ∧ ((g t).resp = none → t.resp = none) ∧ (g t).ks = t.ks := by
     intro q t0 f ht0 hal hq ho hk hf
     refine ⟨fun t => if t.id = t0.id then f t else t, by rw [hq]; rfl, ho, hk, ?_⟩
     intro t ht
@@ -29,7 +29,7 @@ theorem step_nonUse {p : Pool K} (h : Inv p) (e : Ev K) (hne : e.isUseKs = false
     · have := unique_id h.ids ht ht0 hid
       subst this
       simp only [↓reduceIte]
-      exact ⟨hf t, fun hne => absurd hal hne, fun _ => hal⟩
+      exact ⟨(hf t).1, fun hne => absurd hal hne, fun _ => hal, (hf t).2⟩
     · simp [hid]
   cases e with
   | useKs k => simp [Ev.isUseKs] at hne
@@ -46,8 +46,8 @@ theorem step_nonUse {p : Pool K} (h : Inv p) (e : Ev K) (hne : e.isUseKs = false
         simp only [Bool.or_eq_true, Bool.not_eq_true', not_or, Bool.not_eq_true, Option.isSome_eq_false_iff,
           Option.isNone_iff_eq_none] at hcond
         split
-        · exact hmod _ t0 _ htm hcond.1.1 rfl rfl rfl (fun x => rfl)
-        · exact hmod _ t0 _ htm hcond.1.1 rfl rfl rfl (fun x => rfl)
+        · exact hmod _ t0 _ htm hcond.1.1 rfl rfl rfl (fun x => ⟨rfl, rfl⟩)
+        · exact hmod _ t0 _ htm hcond.1.1 rfl rfl rfl (fun x => ⟨rfl, rfl⟩)
   | serve i r =>
     simp only [step]
     split
@@ -67,7 +67,7 @@ theorem step_nonUse {p : Pool K} (h : Inv p) (e : Ev K) (hne : e.isUseKs = false
           · rename_i hcond
             simp only [Bool.or_eq_true, not_or, Bool.not_eq_true, Option.isSome_eq_false_iff,
               Option.isNone_iff_eq_none] at hcond
-            exact hmod _ t0 _ htm hcond.1 rfl rfl rfl (fun x => rfl)
+            exact hmod _ t0 _ htm hcond.1 rfl rfl rfl (fun x => ⟨rfl, rfl⟩)
   | userUse i x =>
     simp only [step]
     split <;> exact hsame _ rfl rfl rfl
@@ -90,7 +90,7 @@ theorem step_nonUse {p : Pool K} (h : Inv p) (e : Ev K) (hne : e.isUseKs = false
           · rename_i hcond
             simp only [Bool.or_eq_true, not_or, Bool.not_eq_true, Option.isSome_eq_false_iff,
               Option.isNone_iff_eq_none] at hcond
-            exact hmod _ t0 _ htm hcond.1 rfl rfl rfl (fun x => rfl)
+            exact hmod _ t0 _ htm hcond.1 rfl rfl rfl (fun x => ⟨rfl, rfl⟩)
   | taskFinish tid =>
     simp only [step]
     split
@@ -103,7 +103,7 @@ theorem step_nonUse {p : Pool K} (h : Inv p) (e : Ev K) (hne : e.isUseKs = false
       · rename_i hcond
         simp only [Bool.or_eq_true, Bool.not_eq_true', not_or, Bool.not_eq_false, Bool.not_eq_true,
           Option.isSome_eq_false_iff, Option.isNone_iff_eq_none] at hcond
-        exact hmod _ t0 _ htm hcond.1 rfl rfl rfl (fun x => rfl)
+        exact hmod _ t0 _ htm hcond.1 rfl rfl rfl (fun x => ⟨rfl, rfl⟩)
   | taskTimeout tid =>
     simp only [step]
     split
@@ -115,7 +115,7 @@ theorem step_nonUse {p : Pool K} (h : Inv p) (e : Ev K) (hne : e.isUseKs = false
       · exact hsame _ rfl rfl rfl
       · rename_i hcond
         simp only [Bool.not_eq_true, Option.isSome_eq_false_iff, Option.isNone_iff_eq_none] at hcond
-        exact hmod _ t0 _ htm hcond rfl rfl rfl (fun x => rfl)
+        exact hmod _ t0 _ htm hcond rfl rfl rfl (fun x => ⟨rfl, rfl⟩)
   | refill => simp only [step]; split <;> exact hsame _ rfl rfl rfl
   | opened shard sharder requested =>
     simp only [step]
@@ -189,7 +189,7 @@ theorem step_tasks_back {p : Pool K} (h : Inv p) (e : Ev K) (t' : Task K) (ht' :
     obtain ⟨g, hg, _, _, hprop⟩ := step_nonUse h e hu
     rw [hg, List.mem_map] at ht'
     obtain ⟨t, ht, rfl⟩ := ht'
-    exact Or.inr ⟨t, ht, (hprop t ht).1, (hprop t ht).2.1, (hprop t ht).2.2⟩
+    exact Or.inr ⟨t, ht, (hprop t ht).1, (hprop t ht).2.1, (hprop t ht).2.2.1⟩
 
 theorem nodeAnswer_some {c : Cluster K} {f : Fanout K} {n : Nat} {r : UseRes} (h : c.nodeAnswer f n = some r) :
     ∃ t ∈ (c.pools n).tasks, f.sent.lookup n = some t.id ∧
